@@ -5,6 +5,9 @@ to the outputs of the real policy compiler.
   J compiled   <ctx[:descriptor kind]> <policy> <ast> <ty|ext of every node, pre-order, `;`>
   J compiledtr <entry> <policy> <internal key id|UNSPENDABLE> <leaf;…|-> <annotations `;;` per leaf|->
   J reparse    <target> <policy> <printed output> <verdict computed by the harness>
+  J compiledsane <ctx[:kind]> <policy> <ast> <annotations>  (large outputs: everything of `compiled` except
+                                                             the 2^n world enumeration; O(n) probe worlds instead)
+  J refuses    <ctx> <entry> <policy> <Ok | Err:kind | PANIC> (no conforming output exists => not Ok)
   J compiles   <ctx> <policy> <Ok | Err:kind | PANIC>       (small sane policies must compile)
   J trlift     <entry> <policy> <unspendable key id | -> <library's lift of the descriptor | ERR:kind>
   C sane       <ctx> <ast>                                  (model of `validate(&Ctx::SANE)`)
@@ -88,6 +91,33 @@ def judgeCompiled (t : Tables) (target policy ast ann : String) : Option String 
     -- the verdict of the verified checker itself
     if checkCompile env P ctx out ty then pure "ok" else pure "bad:checker-inconsistent"
 
+/-- `J compiledsane`: large outputs -/
+def judgeCompiledSane (t : Tables) (target policy ast ann : String) : Option String := do
+  let ctx ← parseTarget target
+  let P ← PolicyOps.parseCPolicy policy
+  if ast == "UNMAPPABLE" then pure "bad:output-not-over-the-table-atoms" else
+  let out ← parseAst ast
+  let env := t.keyEnv
+  match firstDiff 0 (ann.splitOn ";") (annotStrs env ctx out) with
+  | some i => pure s!"bad:annotation(node#{i})"
+  | none =>
+  match rootTy ann with
+  | none => pure "bad:annotation(root-type-unreadable)"
+  | some ty =>
+  if !(typeOf out == some ty) then pure "bad:type" else
+  if !((ty.corr.base == .B) && ty.mall.signed && ty.mall.nonMall) then pure "bad:top(B,signed,nonmalleable)" else
+  if validateSane env ctx out != saneByC12 env ctx out then pure "bad:models-of-validate-disagree" else
+  if !validateSane env ctx out then pure s!"bad:sane({whyInsane env ctx out})" else
+  match firstBadProbe P out with
+  | some W => pure s!"bad:semantics({showWorld (Pol.atomsOfC P ++ msAtoms out) W}:policy={Pol.holdsCW W P},output={semMs out W})"
+  | none => pure "ok"
+
+/-- `trnative<N>-…` ↦ N -/
+def nativeCap (entry : String) : Option Nat :=
+  if entry.startsWith "trnative" then
+    ((((entry.drop 8).toString.splitOn "-").headD "")).toNat?
+  else none
+
 def parseLeaves (s : String) : Option (List Ms) :=
   if s == "-" then some [] else (s.splitOn ";").mapM parseAst
 
@@ -111,6 +141,8 @@ def judgeCompiledTr (t : Tables) (entry policy internal leaves anns : String) : 
   | some i => pure s!"bad:leaf#{i}({whyInsane env .tap ((claimed.getD i (.fls, Ty.FALSE)).1)})"
   | none =>
   if entry.startsWith "trnative" && !(ls.all noIfFragment) then pure "bad:native-leaf-with-IF" else
+  if (match nativeCap entry with | some n => decide (ls.length > min n 1024) | none => false) then
+    pure "bad:more-leaves-than-max_leaves" else
   let tr : TrOut := ⟨ik, ls⟩
   if !internalFresh ik ls then pure "bad:internal-key-reappears-in-a-leaf" else
   match firstBadTr P tr with
@@ -124,9 +156,17 @@ def opsCompile (t : Tables) (kind op : String) (args : List String) : Option Str
     judgeCompiledTr t entry policy internal leaves anns
   | "J", "reparse", [_target, _policy, _printed, verdict] =>
     some (if verdict == "same/sane" then "ok" else s!"bad:{verdict}")
-  | "J", "compiles", [_ctx, policy, outcome] => do
+  | "J", "compiledsane", [target, policy, ast, ann] => judgeCompiledSane t target policy ast ann
+  | "J", "refuses", [ctx, _entry, policy, outcome] => do
+    let ctx ← parseCtx ctx
     let P ← PolicyOps.parseCPolicy policy
-    pure (if mustCompile P && outcome != "Ok" then s!"bad:small-sane-policy-did-not-compile({outcome})" else "ok")
+    pure (if outcome == "Ok" && mustRefuse t.keyEnv ctx P then "bad:compiled-a-policy-that-has-no-conforming-output" else "ok")
+  | "J", "compiles", [ctx, policy, outcome] => do
+    let ctx ← parseCtx ctx
+    let P ← PolicyOps.parseCPolicy policy
+    -- keys of a kind the context forbids are a legitimate reason to refuse
+    let kindsOk := (keyIds (Pol.atomsOfC P)).all (pkOk t.keyEnv (saneParams ctx))
+    pure (if mustCompile P && kindsOk && outcome != "Ok" then s!"bad:small-sane-policy-did-not-compile({outcome})" else "ok")
   | "J", "trlift", [_entry, policy, unsp, lifted] => do
     let P ← PolicyOps.parseCPolicy policy
     let u : Option Nat ← (if unsp == "-" then some none else unsp.toNat?.map some)
